@@ -35,3 +35,58 @@ Example C03_example :
   encode_rfc t = [0xBF; 0x61; 0x61; 0x82; 0xFA; 0x7F; 0xC0; 0; 0; 0xD8; 24; 0x5F; 0x41; 1; 0x40; 0xFF; 0xFF] /\
   load 2048 (2^20) (encode_rfc t ++ [0xFF]) = LOk (canon t) 17.
 Proof. split; vm_compute; reflexivity. Qed.
+
+(* ---- C03 for API-built / API-modified trees (theories/HAbs_proofs.v): what cbor_serialize emits for
+   a heap item is the RFC 8949 encoding of its abstraction, and after a mutating call the abstraction
+   is the one the documented list semantics gives (Properties_C12, the C12_abs_after theorems) ---- *)
+From CB Require Import HHeap HItems HOps HHist HRef_proofs HCont_proofs HHist_proofs HLoad_proofs HAbs_proofs.
+From Coq Require Import List.
+Import ListNotations.
+
+Theorem C03_api_serialize : forall a size w t,
+  (exists w2, abs_of a w = Ret t w2) -> wf_item t -> size < 2 ^ 64 -> len (encode_rfc t) <= size ->
+  exists w2, serialize_h a size w = Ret (Some (len (encode_rfc t), encode_rfc t)) w2.
+Proof. exact HAbs_proofs.C03_api_serialize. Qed.
+Print Assumptions C03_api_serialize.
+
+Theorem C03_push_serialize : forall refuse L s own ownd w ha hx a x s' w' i xs tx wa wx size,
+  Inv own ownd [] w -> caps w -> acyclic w ->
+  legal s own w (OPush ha hx) -> below_rule s w (OPush ha hx) ->
+  hget s ha = Some a -> hget s hx = Some x ->
+  abs_of a w = Ret (IArray i xs) wa -> abs_of x w = Ret tx wx ->
+  step refuse L s (OPush ha hx) w = Ret (s', OutBool true) w' ->
+  wf_item (IArray i (xs ++ [tx])) -> size < 2 ^ 64 -> len (encode_rfc (IArray i (xs ++ [tx]))) <= size ->
+  exists w2, serialize_h a size w' =
+    Ret (Some (len (encode_rfc (IArray i (xs ++ [tx]))), encode_rfc (IArray i (xs ++ [tx])))) w2.
+Proof. exact HAbs_proofs.C03_push_serialize. Qed.
+Print Assumptions C03_push_serialize.
+
+Theorem C03_map_add_serialize : forall refuse L s own ownd w hm hk hv a k v s' w' i kvs tk tv wa wk wv size,
+  Inv own ownd [] w -> caps w -> acyclic w ->
+  legal s own w (OMapAdd hm hk hv) -> below_rule s w (OMapAdd hm hk hv) ->
+  hget s hm = Some a -> hget s hk = Some k -> hget s hv = Some v ->
+  abs_of a w = Ret (IMap i kvs) wa -> abs_of k w = Ret tk wk -> abs_of v w = Ret tv wv ->
+  step refuse L s (OMapAdd hm hk hv) w = Ret (s', OutBool true) w' ->
+  wf_item (IMap i (kvs ++ [(tk, tv)])) -> size < 2 ^ 64 -> len (encode_rfc (IMap i (kvs ++ [(tk, tv)]))) <= size ->
+  exists w2, serialize_h a size w' =
+    Ret (Some (len (encode_rfc (IMap i (kvs ++ [(tk, tv)]))), encode_rfc (IMap i (kvs ++ [(tk, tv)])))) w2.
+Proof. exact HAbs_proofs.C03_map_add_serialize. Qed.
+Print Assumptions C03_map_add_serialize.
+
+(* decoded items: abs_of of the item cbor_load returns is the tree the pure load returns
+   (HLoad_proofs.load_h_refines; allocator granting every request) *)
+Theorem C03_abs_after_load : forall L cap own ownd buf w,
+  SIZE_MAX <= cap -> bytes_ok buf -> len buf < 2 ^ 57 -> HCont_proofs.wf w -> Inv own ownd [] w ->
+  match load L cap buf with
+  | LOk t n => exists a w' w'', load_h grant L buf w = Ret (Some a, ENone, 0, n) w' /\ abs_of a w' = Ret t w''
+  | LErr code p q => exists w', load_h grant L buf w = Ret (None, code, p, q) w'
+  | LFault => False
+  end.
+Proof. exact load_h_refines. Qed.
+Print Assumptions C03_abs_after_load.
+
+Example C03_example_api : forall s' w',
+  step HRef_proofs.never 8 (fst exAbs_sw) exAbs_op (snd exAbs_sw) = Ret (s', OutBool true) w' ->
+  exists w2, serialize_h 1 16 w' = Ret (Some (5, [130; 7; 98; 104; 105])) w2.
+Proof. intros s' w' E. apply (exAbs_theorems s' w' E). Qed.
+
